@@ -270,9 +270,46 @@ class CropperMonitor:
             if abs(got - k) > exact.time_tol(F(k) / m["rate"], 2) * m["rate"] or k < 0:
                 ctx.violation(o, f"incoherent dedispersion advanced the start by {float(got)!r} samples (must be a whole number >= 0)",
                               None, dict(feats, what="start"))
+            else:
+                self._incoherent_sources(o, m, args, kwargs, out, k, feats)
         monitors.check_span(ctx, o, out, feats)
         if len(out) > 0 and m["start"] is not None:
             ctx.count(f"nontrivial[{o}]")
+
+
+def _incoherent_sources(self, o, m, args, kwargs, out, k, feats):
+    """Output sample 0 of channel i must be the input sample k + round(delay_i) of that channel (time ledger via the data)."""
+    import dask.array as _da
+    ctx = self.ctx
+    z, dm = args[0], args[1]
+    if isinstance(z.data, _da.Array) or z.shape[0] * int(np.prod(z.shape[1:])) > 1 << 18:
+        return
+    ref = kwargs.get("ref_freq")
+    ref = m["fc"] if ref is None else exact.hz(ref)
+    if ref <= 0 or m["fmin"] <= 0:
+        return
+    labels = monitors.model_labels(m["fc"], m["bw"], m["align"], m["nchan"])
+    dmv = oracles.dm_value(dm)
+    xin = np.asarray(z.data).reshape(z.shape[0], z.shape[1], -1)
+    xout = np.asarray(out.data).reshape(out.shape[0], out.shape[1], -1)
+    for i, f in enumerate(labels):
+        d = oracles.delay_s(dmv, f, ref) * m["rate"]
+        eps = oracles.delay_err_bound(dmv, f, ref, m["rate"]) + F(1, 10 ** 9)
+        cands = {math.floor(d + F(1, 2) - eps), math.floor(d + F(1, 2) + eps)}
+        hits = np.nonzero(np.all(xin[:, i, :] == xout[0, i, :], axis=-1))[0]
+        if len(hits) != 1:
+            ctx.count("ambiguous[incoherent_source_not_unique]")
+            continue
+        ctx.count("oracle[incoherent_source_time]")
+        j = int(hits[0])
+        if (j - k) not in cands:
+            ctx.violation(o, f"channel {i}: output sample 0 (stamped input start + {k} samples) is input sample {j}, i.e. a shift of "
+                             f"{j - k} samples, but round(delay) = {sorted(cands)} (delay {float(d):.4f} samples)",
+                          {"dm": float(dmv), "ref": float(ref)}, dict(feats, what="source_time"))
+            return
+
+
+CropperMonitor._incoherent_sources = _incoherent_sources
 
 
 # ------------------------------------------------------------------------------------------------
